@@ -110,6 +110,49 @@ class Case(object):
                 'features': sorted(self.features), 'n_bytes': len(self.bytes) if self.bytes else None}
 
 
+def case_from_raws(meta, ids, columns=None, subsets=None, extra_widths=None):
+    """Build a case from explicit raw values: `columns` (compressed: one list per field,
+    one entry per subset) or `subsets` (uncompressed: one list of raws per subset).
+    Constant entries (operator place holders) are not part of the lists."""
+    c = Case()
+    c.meta = dict(meta)
+    c.ids = list(ids)
+    c.extra_widths = extra_widths
+    c.tables = tables_of_meta(c.meta)
+    c.tree = rtree.parse(c.ids, c.tables)
+    if c.meta['is_compressed']:
+        src = GivenSource([list(col) for col in columns])
+        c.decoded = codec.walk_all(c.tree, c.tables, c.meta['n_subsets'], True, lambda i: src)
+    else:
+        c.decoded = codec.walk_all(c.tree, c.tables, c.meta['n_subsets'], False,
+                                   lambda i: GivenSource([[r] for r in subsets[i]]))
+    c.features = c.decoded.features()
+    c.features.add('edition%d' % c.meta['edition'])
+    c.features.add('compressed' if c.meta['is_compressed'] else 'uncompressed')
+    build_bytes(c)
+    return c
+
+
+def recompress(case, compressed):
+    """The same data stored the other way (only for cases whose subsets share one structure)."""
+    meta = dict(case.meta)
+    meta['is_compressed'] = compressed
+    n = case.nsub
+    nfields = len(case.decoded.fields_of(0))
+    if compressed:
+        cols = []
+        for k in range(nfields):
+            if case.decoded.fields_of(0)[k].kind == 'const':
+                continue
+            cols.append([case.decoded.raw(i, k) for i in range(n)])
+        return case_from_raws(meta, case.ids, columns=cols)
+    subs = []
+    for i in range(n):
+        fs = case.decoded.fields_of(i)
+        subs.append([case.decoded.raw(i, k) for k in range(len(fs)) if fs[k].kind != 'const'])
+    return case_from_raws(meta, case.ids, subsets=subs)
+
+
 def tables_of_meta(meta):
     return rtables.load(*rtables.select(meta.get('master_table_number', 0), meta['originating_centre'],
                                         meta.get('originating_subcentre', 0), meta['master_table_version'],
